@@ -17,11 +17,20 @@
      cvrp_rew i s acts  = cvrp_reward i acts  (env.get_reward; C03 relates it to the objective).
      forward ... m sa ms S sb fuel cfgs starts ors = Some rows     ConstructivePolicy.forward up to post_decoder_hook.
      probs ... h i s    the masked normalised step distribution in state s;  spec_ps ... h i s acts = [probs(s_t)[a_t]]_t.
-   The TSP statements are the same with E := TSP (Env/TSP.v), tsp_dec, tsp_rew. *)
+   The TSP statements are the same with E := TSP (Env/TSP.v), tsp_dec, tsp_rew.
+
+   Round 2: OP, PCTSP (= SPCTSP, field [stoch]) and SDVRP (second half of this file; Compose/PolicyOnEnvs2.v).
+     E := OP exact / PCTSP exact / SDVRP exact      the models of Env/OP.v, Env/PCTSP.v, Env/SDVRP.v (node 0 = depot;
+                        op_n / pn_of / n_of customers; SDVRP re-uses cvrp_inst and cvrp_reward).
+     env_dec E net h i s = (net h i s, mask E i s)  the decoder: network logits and the environment's own mask.
+     op_rew / pctsp_rew / sdvrp_rew i s acts        = op_reward / pctsp_reward / cvrp_reward i acts.
+     The padding corollaries compose C11_single_feasible_action_has_probability_one with C04_<env>_padding_inert
+     (hypotheses: the instance well-formedness of that theorem, an action list inside the masks that has finished). *)
 From Coq Require Import ZArith QArith Qcanon List Bool Arith.
 From RL4CO Require Import Base.Num Base.OField Base.OFieldQc Base.EnvSig Decoding.ProcessLogits Decoding.PLInst
                           Decoding.DecodeLoop Decoding.DecodeLoopInst Env.CVRP Env.CVRPProofs Env.TSP
-                          Compose.PolicyOnCVRP.
+                          Env.OP Env.OPProofs Env.PCTSP Env.PCTSPProofs Env.SDVRP Env.SDVRPProofs
+                          Compose.PolicyOnCVRP Compose.PolicyOnEnvs2.
 Import ListNotations.
 Local Open Scope nat_scope.
 
@@ -145,3 +154,203 @@ Example C11_ex_tsp_greedy :
   option_map (map ExTSP.tview) (ExTSP.tfwd Greedy false false 0 false 20 [(1%Z, ExTSP.t1); (2%Z, ExTSP.t2)] [] [[]; []])
   = Some [([1; 2; 0], [4 # 7; 2 # 3; 1]%Q, true, (-7)%Z); ([0; 2; 1], [4 # 7; 2 # 3; 1]%Q, true, (-10)%Z)].
 Proof. exact ExTSP.tsp_greedy. Qed.
+
+(* ==================================================================================================================
+   Round 2: OP, PCTSP, SDVRP (see the second half of the reading guide) *)
+
+(* ------------------------------------------------------------------ OP *)
+Theorem C11_ll_is_sum_on_op :
+  forall (clip tmp : Z -> Z) (top_p : Qc) (top_k : nat) (Hd : Type)
+         (net : Hd -> op_inst -> op_st -> list Z)
+         (mask_logits : bool) (flagf : op_inst -> op_st -> option (list bool))
+         (m : mode) (sa : bool) (S : nat) (sb : bool) (fuel : nat) (cfgs : list (Hd * op_inst))
+         (starts : list nat) (ors : list (list nat)) (outs : list (brow QcF (OP exact) Hd)),
+    forward QcF Z Z.leb pow2 clip tmp top_p top_k mask_logits (OP exact) Hd (env_dec (OP exact) net) op_rew
+            m sa false S sb fuel cfgs starts ors = Some outs ->
+    forall cr : brow QcF (OP exact) Hd, In cr outs ->
+      let c := fst cr in
+      let acts := r_acts (snd cr) in
+      let ps := spec_ps QcF Z Z.leb pow2 clip tmp top_p top_k mask_logits (OP exact) Hd (env_dec (OP exact) net)
+                        (rc_h c) (rc_i c) (op_reset (rc_i c)) acts in
+      r_s (snd cr) = run (E:=OP exact) (rc_i c) acts /\
+      out_ll_steps QcF (OP exact) Hd flagf Qc idQc cr
+        = map idQc (flagz QcF (out_flags QcF (OP exact) Hd flagf cr) ps) /\
+      out_ll QcF (OP exact) Hd flagf Qc 1%Qc Qcmult idQc cr
+        = gsum Qc 1%Qc Qcmult (map idQc (flagz QcF (out_flags QcF (OP exact) Hd flagf cr) ps)) /\
+      out_reward QcF (OP exact) Hd op_rew cr = op_reward (rc_i c) acts.
+Proof. exact ll_is_sum_on_op. Qed.
+Print Assumptions C11_ll_is_sum_on_op.
+
+(* C11 probs_single_feasible x C04_op_padding_inert: after an action list inside the masks has finished, and after
+   any number k of further depot visits, the depot has probability ONE and greedy takes it *)
+Theorem C11_op_padding_steps_have_probability_one :
+  forall (clip tmp : Z -> Z) (top_p : Qc) (top_k : nat) (Hd : Type)
+         (net : Hd -> op_inst -> op_st -> list Z)
+         (h : Hd) (i : op_inst) (acts : list nat) (k : nat),
+    op_wf i ->
+    adm (E:=OP exact) i acts = true ->
+    done (OP exact) i (run (E:=OP exact) i acts) = true ->
+    length (net h i (run (E:=OP exact) i (acts ++ repeat 0 k))) = S (op_n i) ->
+    let pr := probs QcF Z Z.leb pow2 clip tmp top_p top_k true (OP exact) Hd (env_dec (OP exact) net) h i
+                    (run (E:=OP exact) i (acts ++ repeat 0 k)) in
+    nth 0 pr 0%Qc = 1%Qc /\ greedy QcF pr = 0.
+Proof. exact op_padding_steps_have_probability_one. Qed.
+Print Assumptions C11_op_padding_steps_have_probability_one.
+
+(* ... hence the padded action list has the same per-step probabilities up to k trailing ones, the same
+   log-likelihood and the same reward as the unpadded one *)
+Theorem C11_op_padded_ll_equal :
+  forall (clip tmp : Z -> Z) (top_p : Qc) (top_k : nat) (Hd : Type)
+         (net : Hd -> op_inst -> op_st -> list Z)
+         (h : Hd) (i : op_inst) (acts : list nat) (k : nat),
+    op_wf i ->
+    (forall s : op_st, length (net h i s) = S (op_n i)) ->
+    adm (E:=OP exact) i acts = true ->
+    done (OP exact) i (run (E:=OP exact) i acts) = true ->
+    let ps := spec_ps QcF Z Z.leb pow2 clip tmp top_p top_k true (OP exact) Hd (env_dec (OP exact) net) h i (op_reset i) in
+    ps (acts ++ repeat 0 k) = ps acts ++ repeat 1%Qc k /\
+    gsum Qc 1%Qc Qcmult (map idQc (ps (acts ++ repeat 0 k))) = gsum Qc 1%Qc Qcmult (map idQc (ps acts)) /\
+    op_reward i (acts ++ repeat 0 k) = op_reward i acts.
+Proof. exact op_padded_ll_equal. Qed.
+Print Assumptions C11_op_padded_ll_equal.
+
+(* ------------------------------------------------------------------ PCTSP *)
+Theorem C11_ll_is_sum_on_pctsp :
+  forall (clip tmp : Z -> Z) (top_p : Qc) (top_k : nat) (Hd : Type)
+         (net : Hd -> pctsp_inst -> pctsp_st -> list Z)
+         (mask_logits : bool) (flagf : pctsp_inst -> pctsp_st -> option (list bool))
+         (m : mode) (sa : bool) (S : nat) (sb : bool) (fuel : nat) (cfgs : list (Hd * pctsp_inst))
+         (starts : list nat) (ors : list (list nat)) (outs : list (brow QcF (PCTSP exact) Hd)),
+    forward QcF Z Z.leb pow2 clip tmp top_p top_k mask_logits (PCTSP exact) Hd (env_dec (PCTSP exact) net) pctsp_rew
+            m sa false S sb fuel cfgs starts ors = Some outs ->
+    forall cr : brow QcF (PCTSP exact) Hd, In cr outs ->
+      let c := fst cr in
+      let acts := r_acts (snd cr) in
+      let ps := spec_ps QcF Z Z.leb pow2 clip tmp top_p top_k mask_logits (PCTSP exact) Hd (env_dec (PCTSP exact) net)
+                        (rc_h c) (rc_i c) (pctsp_reset (rc_i c)) acts in
+      r_s (snd cr) = run (E:=PCTSP exact) (rc_i c) acts /\
+      out_ll_steps QcF (PCTSP exact) Hd flagf Qc idQc cr
+        = map idQc (flagz QcF (out_flags QcF (PCTSP exact) Hd flagf cr) ps) /\
+      out_ll QcF (PCTSP exact) Hd flagf Qc 1%Qc Qcmult idQc cr
+        = gsum Qc 1%Qc Qcmult (map idQc (flagz QcF (out_flags QcF (PCTSP exact) Hd flagf cr) ps)) /\
+      out_reward QcF (PCTSP exact) Hd pctsp_rew cr = pctsp_reward (rc_i c) acts.
+Proof. exact ll_is_sum_on_pctsp. Qed.
+Print Assumptions C11_ll_is_sum_on_pctsp.
+
+(* C11 probs_single_feasible x C04_pctsp_padding_inert: after an action list inside the masks has finished, and after
+   any number k of further depot visits, the depot has probability ONE and greedy takes it *)
+Theorem C11_pctsp_padding_steps_have_probability_one :
+  forall (clip tmp : Z -> Z) (top_p : Qc) (top_k : nat) (Hd : Type)
+         (net : Hd -> pctsp_inst -> pctsp_st -> list Z)
+         (h : Hd) (i : pctsp_inst) (acts : list nat) (k : nat),
+    pctsp_wf i ->
+    adm (E:=PCTSP exact) i acts = true ->
+    done (PCTSP exact) i (run (E:=PCTSP exact) i acts) = true ->
+    length (net h i (run (E:=PCTSP exact) i (acts ++ repeat 0 k))) = S (pn_of i) ->
+    let pr := probs QcF Z Z.leb pow2 clip tmp top_p top_k true (PCTSP exact) Hd (env_dec (PCTSP exact) net) h i
+                    (run (E:=PCTSP exact) i (acts ++ repeat 0 k)) in
+    nth 0 pr 0%Qc = 1%Qc /\ greedy QcF pr = 0.
+Proof. exact pctsp_padding_steps_have_probability_one. Qed.
+Print Assumptions C11_pctsp_padding_steps_have_probability_one.
+
+(* ... hence the padded action list has the same per-step probabilities up to k trailing ones, the same
+   log-likelihood and the same reward as the unpadded one *)
+Theorem C11_pctsp_padded_ll_equal :
+  forall (clip tmp : Z -> Z) (top_p : Qc) (top_k : nat) (Hd : Type)
+         (net : Hd -> pctsp_inst -> pctsp_st -> list Z)
+         (h : Hd) (i : pctsp_inst) (acts : list nat) (k : nat),
+    pctsp_wf i ->
+    (forall s : pctsp_st, length (net h i s) = S (pn_of i)) ->
+    adm (E:=PCTSP exact) i acts = true ->
+    done (PCTSP exact) i (run (E:=PCTSP exact) i acts) = true ->
+    let ps := spec_ps QcF Z Z.leb pow2 clip tmp top_p top_k true (PCTSP exact) Hd (env_dec (PCTSP exact) net) h i (pctsp_reset i) in
+    ps (acts ++ repeat 0 k) = ps acts ++ repeat 1%Qc k /\
+    gsum Qc 1%Qc Qcmult (map idQc (ps (acts ++ repeat 0 k))) = gsum Qc 1%Qc Qcmult (map idQc (ps acts)) /\
+    (pdfun i 0 0 = 0%Z -> pctsp_reward i (acts ++ repeat 0 k) = pctsp_reward i acts).
+Proof. exact pctsp_padded_ll_equal. Qed.
+Print Assumptions C11_pctsp_padded_ll_equal.
+
+(* ------------------------------------------------------------------ SDVRP *)
+Theorem C11_ll_is_sum_on_sdvrp :
+  forall (clip tmp : Z -> Z) (top_p : Qc) (top_k : nat) (Hd : Type)
+         (net : Hd -> cvrp_inst -> sd_st -> list Z)
+         (mask_logits : bool) (flagf : cvrp_inst -> sd_st -> option (list bool))
+         (m : mode) (sa : bool) (S : nat) (sb : bool) (fuel : nat) (cfgs : list (Hd * cvrp_inst))
+         (starts : list nat) (ors : list (list nat)) (outs : list (brow QcF (SDVRP exact) Hd)),
+    forward QcF Z Z.leb pow2 clip tmp top_p top_k mask_logits (SDVRP exact) Hd (env_dec (SDVRP exact) net) sdvrp_rew
+            m sa false S sb fuel cfgs starts ors = Some outs ->
+    forall cr : brow QcF (SDVRP exact) Hd, In cr outs ->
+      let c := fst cr in
+      let acts := r_acts (snd cr) in
+      let ps := spec_ps QcF Z Z.leb pow2 clip tmp top_p top_k mask_logits (SDVRP exact) Hd (env_dec (SDVRP exact) net)
+                        (rc_h c) (rc_i c) (sd_reset (rc_i c)) acts in
+      r_s (snd cr) = run (E:=SDVRP exact) (rc_i c) acts /\
+      out_ll_steps QcF (SDVRP exact) Hd flagf Qc idQc cr
+        = map idQc (flagz QcF (out_flags QcF (SDVRP exact) Hd flagf cr) ps) /\
+      out_ll QcF (SDVRP exact) Hd flagf Qc 1%Qc Qcmult idQc cr
+        = gsum Qc 1%Qc Qcmult (map idQc (flagz QcF (out_flags QcF (SDVRP exact) Hd flagf cr) ps)) /\
+      out_reward QcF (SDVRP exact) Hd sdvrp_rew cr = cvrp_reward (rc_i c) acts.
+Proof. exact ll_is_sum_on_sdvrp. Qed.
+Print Assumptions C11_ll_is_sum_on_sdvrp.
+
+(* C11 probs_single_feasible x C04_sdvrp_padding_inert: after an action list inside the masks has finished, and after
+   any number k of further depot visits, the depot has probability ONE and greedy takes it *)
+Theorem C11_sdvrp_padding_steps_have_probability_one :
+  forall (clip tmp : Z -> Z) (top_p : Qc) (top_k : nat) (Hd : Type)
+         (net : Hd -> cvrp_inst -> sd_st -> list Z)
+         (h : Hd) (i : cvrp_inst) (acts : list nat) (k : nat),
+    cvrp_wf i ->
+    adm (E:=SDVRP exact) i acts = true ->
+    done (SDVRP exact) i (run (E:=SDVRP exact) i acts) = true ->
+    length (net h i (run (E:=SDVRP exact) i (acts ++ repeat 0 k))) = S (n_of i) ->
+    let pr := probs QcF Z Z.leb pow2 clip tmp top_p top_k true (SDVRP exact) Hd (env_dec (SDVRP exact) net) h i
+                    (run (E:=SDVRP exact) i (acts ++ repeat 0 k)) in
+    nth 0 pr 0%Qc = 1%Qc /\ greedy QcF pr = 0.
+Proof. exact sdvrp_padding_steps_have_probability_one. Qed.
+Print Assumptions C11_sdvrp_padding_steps_have_probability_one.
+
+(* ... hence the padded action list has the same per-step probabilities up to k trailing ones, the same
+   log-likelihood and the same reward as the unpadded one *)
+Theorem C11_sdvrp_padded_ll_equal :
+  forall (clip tmp : Z -> Z) (top_p : Qc) (top_k : nat) (Hd : Type)
+         (net : Hd -> cvrp_inst -> sd_st -> list Z)
+         (h : Hd) (i : cvrp_inst) (acts : list nat) (k : nat),
+    cvrp_wf i ->
+    (forall s : sd_st, length (net h i s) = S (n_of i)) ->
+    adm (E:=SDVRP exact) i acts = true ->
+    done (SDVRP exact) i (run (E:=SDVRP exact) i acts) = true ->
+    let ps := spec_ps QcF Z Z.leb pow2 clip tmp top_p top_k true (SDVRP exact) Hd (env_dec (SDVRP exact) net) h i (sd_reset i) in
+    ps (acts ++ repeat 0 k) = ps acts ++ repeat 1%Qc k /\
+    gsum Qc 1%Qc Qcmult (map idQc (ps (acts ++ repeat 0 k))) = gsum Qc 1%Qc Qcmult (map idQc (ps acts)) /\
+    (dfun i 0 0 = 0%Z -> cvrp_reward i (acts ++ repeat 0 k) = cvrp_reward i acts).
+Proof. exact sdvrp_padded_ll_equal. Qed.
+Print Assumptions C11_sdvrp_padded_ll_equal.
+
+(* ------------------------------------------------------------------ non-vacuity (by computation): a greedy pass of the
+   decode loop on a batch of two well-formed instances finishing at different times; per returned row: actions,
+   per-step probabilities (padding steps = 1), (inside the masks, finished), reward.  Instances and networks:
+   Compose/PolicyOnEnvs2.v, Modules ExOP / ExPC / ExSD. *)
+Example C11_ex_op_greedy :
+  option_map (map ExOP.view) (ExOP.fwd Greedy false false 0 false 20 [(10%Z, ExOP.i1); (41%Z, ExOP.i2)] [] [[]; []])
+  = Some [([1; 0; 0; 0], [16 # 19; 1; 1; 1]%Q, (true, true), 10%Z);
+          ([2; 3; 1; 0], [16 # 27; 8 # 11; 4 # 5; 1]%Q, (true, true), 60%Z)].
+Proof. exact ExOP.greedy_pass. Qed.
+Example C11_ex_pctsp_greedy :
+  option_map (map ExPC.view) (ExPC.fwd Greedy false false 0 false 20 [(65%Z, ExPC.i1); (65%Z, ExPC.i2)] [] [[]; []])
+  = Some [([2; 3; 0; 0], [8 # 13; 4 # 5; 16 # 17; 1]%Q, (true, true), (-15)%Z);
+          ([2; 3; 1; 0], [8 # 13; 4 # 5; 1; 1]%Q, (true, true), (-14)%Z)].
+Proof. exact ExPC.greedy_pass. Qed.
+Example C11_ex_sdvrp_greedy :
+  option_map (map ExSD.view) (ExSD.fwd Greedy false false 0 false 20 [(11%Z, ExSD.i1); (11%Z, ExSD.i2)] [] [[]; []])
+  = Some [([2; 1; 0; 0], [2 # 3; 4 # 5; 1; 1]%Q, (true, true), (-12)%Z);
+          ([2; 1; 0; 1], [2 # 3; 8 # 9; 1; 1]%Q, (true, true), (-18)%Z)].
+Proof. exact ExSD.greedy_pass. Qed.
+(* hypotheses of the padding corollaries at the padded rows *)
+Example C11_ex_padding_hypotheses_2 :
+  (op_wfb ExOP.i1 = true /\ adm (E:=OP exact) ExOP.i1 [1; 0] = true /\
+   done (OP exact) ExOP.i1 (run (E:=OP exact) ExOP.i1 [1; 0]) = true) /\
+  (pctsp_wfb ExPC.i1 = true /\ adm (E:=PCTSP exact) ExPC.i1 [2; 3; 0] = true /\
+   done (PCTSP exact) ExPC.i1 (run (E:=PCTSP exact) ExPC.i1 [2; 3; 0]) = true) /\
+  (cvrp_wfb ExSD.i1 = true /\ adm (E:=SDVRP exact) ExSD.i1 [2; 1] = true /\
+   done (SDVRP exact) ExSD.i1 (run (E:=SDVRP exact) ExSD.i1 [2; 1]) = true).
+Proof. vm_compute. repeat split; reflexivity. Qed.
